@@ -679,6 +679,9 @@ def replay_f14(chk, runs=48):
     return line, seen
 
 
+# the CSV statements restated from the FILE TEXT (csv reader model of C16, Lemmas/CsvTextFile.lean)
+FILE_THEOREMS = ['Okane.Import.C17_csv_import_file']
+
 def run(chk):
     chk.rule = ("select: random lists of 1-7 configuration documents whose `path` is a random substring of the file path "
                 "(nested, overlapping, equal byte length, multi-byte, empty, non-matching), each setting a random subset of the scalars, "
@@ -689,7 +692,7 @@ def run(chk):
                 "or (rules, record)")
     chk.assumptions = ["regex matching is a parameter of the model (the harness hands the real regex crate's verdicts to the driver)",
                        "YAML decoding, str::contains, from_slash (identity on Unix) and encoding labels are modelled, not verified"]
-    if not standard_prologue(chk, THEOREMS):
+    if not standard_prologue(chk, THEOREMS + FILE_THEOREMS, imports=["Okane.Lemmas.CsvTextFile"]):
         return
     quick = chk.tier == "quick"
     run_select(chk, 600 if quick else 12000)
